@@ -6,5 +6,7 @@ cd "$(dirname "$0")"
 export GOFLAGS=-mod=mod GOPROXY=off GOSUMDB=off GOTOOLCHAIN=local
 mkdir -p bin evidence replays
 go build -o bin/check ./cmd/check
+# warm the race-instrumented standard library (C08 builds the harness with -race)
+go build -race -o /dev/null ./cmd/check ./cmd/rewriteonly
 # warm caches + environment-model conformance self-tests
 ./bin/check SELFTEST --tier quick
